@@ -85,6 +85,30 @@ func genCrossCase(r *Rng) crossCase {
 	return c
 }
 
+// naive count over distinct (upper, lower) position pairs, layer pair by layer pair
+func naiveCrossings(st autog.VerifSnap) int {
+	type pp struct{ l, u, v int }
+	seen := map[pp]bool{}
+	var ps []pp
+	for _, e := range st.Edges {
+		f, t := st.Nodes[e.From], st.Nodes[e.To]
+		p := pp{f.Layer, f.LayerPos, t.LayerPos}
+		if !seen[p] {
+			seen[p] = true
+			ps = append(ps, p)
+		}
+	}
+	n := 0
+	for a := 0; a < len(ps); a++ {
+		for b := a + 1; b < len(ps); b++ {
+			if ps[a].l == ps[b].l && (ps[a].u-ps[b].u)*(ps[a].v-ps[b].v) < 0 {
+				n++
+			}
+		}
+	}
+	return n
+}
+
 func runCrossUnit(seed uint64, n int, outDir string) int {
 	r := NewRng(seed)
 	os.MkdirAll(outDir, 0o755)
@@ -117,25 +141,7 @@ func runCrossUnit(seed uint64, n int, outDir string) int {
 			cases = append(cases, c)
 			continue
 		}
-		// naive count over distinct (upper, lower) position pairs, layer pair by layer pair
-		type pp struct{ l, u, v int }
-		seen := map[pp]bool{}
-		var ps []pp
-		for _, e := range st.Edges {
-			f, t := st.Nodes[e.From], st.Nodes[e.To]
-			p := pp{f.Layer, f.LayerPos, t.LayerPos}
-			if !seen[p] {
-				seen[p] = true
-				ps = append(ps, p)
-			}
-		}
-		for a := 0; a < len(ps); a++ {
-			for b := a + 1; b < len(ps); b++ {
-				if ps[a].l == ps[b].l && (ps[a].u-ps[b].u)*(ps[a].v-ps[b].v) < 0 {
-					c.Naive++
-				}
-			}
-		}
+		c.Naive = naiveCrossings(st)
 		cases = append(cases, c)
 		if inShard > 0 {
 			shard.WriteString(";\n")
